@@ -111,6 +111,23 @@ Theorem checkpoint_exact_reachc : forall d o mem wm,
 Proof. exact checkpoint_exact_dbc. Qed.
 Print Assumptions checkpoint_exact_reachc.
 
+(* one failing storage read (any position, any error that is not end-of-file) during the replay of a checkpoint's WAL: the
+   reader of Model/Ckpt.v ([wal_read_fault], every failed read handed to the caller as wal/reader.go does) returns an error or
+   exactly what the healthy reader returns - never a shorter log *)
+Theorem wal_read_fault_surfaces : forall content after skip_reads k,
+  wal_read_fault content after skip_reads k = REof \/ wal_read_fault content after skip_reads k = wal_read content after.
+Proof. exact C08_Contents.wal_read_fault_surfaces. Qed.
+Print Assumptions wal_read_fault_surfaces.
+
+(* hence a restore under such a fault does not return a database, or returns one that answers every owned key as the original
+   did at the checkpoint call - it never succeeds with writes missing *)
+Theorem restore_under_read_fault_exact : forall d o mem wm skip_reads k, reachc d ->
+  restore_under_fault d o mem wm skip_reads k = None \/
+  exists r, restore_under_fault d o mem wm skip_reads k = Some r /\ reachc r /\
+            forall key, owns o key = true -> db_get r key = db_get d key.
+Proof. exact restore_fault_exact. Qed.
+Print Assumptions restore_under_read_fault_exact.
+
 (* non-vacuity: two rotations, a flush of both memtables into two tables, a merging compaction into one, a checkpoint, a
    delete on the original afterwards, a restore: the restored database still holds the value of the checkpoint call *)
 Example contents_history :
